@@ -103,6 +103,9 @@ def install_symbolic(cpu_count=None, nondet_set=None):
             def default_rng(s, seed=None):
                 return stubs.SymGenerator(seed)
 
+            def RandomState(s, seed=None):
+                return stubs.SymRandomState(seed)
+
             def __getattr__(s, k):
                 from .core import Unsupported
                 raise Unsupported('library code touched the global numpy generator np.random.%s' % k)
